@@ -153,16 +153,20 @@ def envelope_job(job) -> dict:
             det.set_readout(times=[1.0]); det.empty()
             det.environment.temperature = 200.0
             frame = np.array([[rng.choice([0.0, 0.0, 10.0, 500.0, 30000.0]) for _ in range(5)] for _ in range(6)])
-            if job["seed"] % 4 == 0:
+            pat = job.get("pattern", job["seed"] % 4)
+            if pat == 0:
                 frame[:] = 0.0
-            if job["seed"] % 4 == 1:
+            if pat == 1:
                 frame[:] = 0.0
                 frame[2, 3] = 50000.0           # a single hot pixel
+            if pat == 2:                        # a bright block on a faint, non-empty background
+                frame[:] = rng.choice([5.0, 20.0])
+                frame[1:4, 1:3] = rng.choice([30000.0, 60000.0])
             det.pixel.array = frame.copy()
             n = rng.randint(1, 4)
             cdm(det, direction=job["direction"], beta=rng.choice([0.3, 0.37, 0.6]),
                 trap_release_times=[rng.choice([3e-3, 5e-2, 1.0]) for _ in range(n)],
-                trap_densities=[rng.choice([20.0, 100.0, 350.0]) for _ in range(n)],
+                trap_densities=[rng.choice([1.0e9, 2.0e9, 4.0e9] if job.get("dense") else [20.0, 100.0, 350.0]) for _ in range(n)],
                 sigma=[rng.choice([1e-15, 1e-10, 1e-20]) for _ in range(n)],
                 full_well_capacity=rng.choice([1e4, 1e5]), max_electron_volume=1.62e-10,
                 transfer_period=9.4722e-04, charge_injection=False)
